@@ -122,6 +122,10 @@ pub fn alphabet(channels: &[u32], timeout: u64) -> Vec<Inp> {
     a.push(Inp::Poll(7));
     a.push(Inp::Msg(0xF8, 0, 0));
     a.push(Inp::Msg(0xF3, 6, 0));
+    for &c in channels {
+        let st = 0xF0 + c as u8;
+        a.push(Inp::Msg(st, 6, 5)); a.push(Inp::Msg(st, 98, 5)); a.push(Inp::Msg(st, 96, 5));
+    }
     a.push(Inp::Reset);
     if timeout == 0 { a.push(Inp::Tick(1)); } else {
         a.push(Inp::Tick(1));
@@ -131,7 +135,7 @@ pub fn alphabet(channels: &[u32], timeout: u64) -> Vec<Inp> {
     a
 }
 
-pub fn explore(out: &mut Out, channels: &[u32], timeout: u64, max_states: usize) {
+pub fn explore(out: &mut Out, channels: &[u32], timeout: u64, max_states: usize, strict_reset: bool) {
     let alpha = alphabet(channels, timeout);
     let mut seen: HashMap<String, usize> = HashMap::new();
     let mut queue: VecDeque<usize> = VecDeque::new();
@@ -167,7 +171,7 @@ pub fn explore(out: &mut Out, channels: &[u32], timeout: u64, max_states: usize)
             out.req(&format!("pp copy {} 0", id));
             match inp {
                 Inp::Msg(s, d1, d2) => { let l = out.req_ret(&format!("pp feed 0 raw {} {} {}", s, d1, d2)); if l.chars().any(|c| c.is_ascii_digit()) { reports += 1; } }
-                Inp::Reset => { out.req("pp reset 0"); out.req(&format!("pp mustbenew 0 {}", timeout)); }
+                Inp::Reset => { out.req("pp reset 0"); out.req(&format!("pp {} 0 {}", if strict_reset { "mustbenew" } else { "isnew" }, timeout)); }
                 Inp::Poll(c) => { let l = out.req_ret(&format!("pp poll 0 {}", c)); if !l.starts_with('-') { reports += 1; polls_reporting += 1; } }
                 Inp::Tick(d) => { out.req(&format!("pp tick {}", d)); }
                 Inp::SameAsTemp => {}
@@ -198,6 +202,8 @@ pub fn explore(out: &mut Out, channels: &[u32], timeout: u64, max_states: usize)
         }
     }
     out.stat("states", seen.len() as u64);
+    // 1 = the state bound was hit before a fixpoint was reached (the exploration is then incomplete; recorded)
+    out.stat("exploration_truncated", (seen.len() >= max_states) as u64);
     out.stat("transitions", transitions);
     out.stat("transitions_reporting", reports);
     out.stat("polls_reporting", polls_reporting);
@@ -221,7 +227,7 @@ fn random_msg(rng: &mut Rng, chans: u64) -> (u8, u8, u8) {
 }
 
 /// seeded random histories: feeds over the full alphabet, polls, resets, time steps below / at / above the timeout
-pub fn random_histories(out: &mut Out, seed: u64, histories: usize, len: usize) {
+pub fn random_histories(out: &mut Out, seed: u64, histories: usize, len: usize, strict_reset: bool) {
     let mut rng = Rng(seed ^ 0xB011);
     let (mut n, mut reports) = (0u64, 0u64);
     let impls = ["raw", "str", "frn"];
@@ -237,7 +243,7 @@ pub fn random_histories(out: &mut Out, seed: u64, histories: usize, len: usize) 
             let which = impls[rng.below(3) as usize];
             if r < 2 {
                 out.req("pp reset 1");
-                out.req(&format!("pp mustbenew 1 {}", timeout));
+                out.req(&format!("pp {} 1 {}", if strict_reset { "mustbenew" } else { "isnew" }, timeout));
             } else if r < 4 {
                 out.req("pp copy 1 2"); copied = true;
             } else if r < 7 && copied {
@@ -267,6 +273,21 @@ pub fn random_histories(out: &mut Out, seed: u64, histories: usize, len: usize) 
                 if l.chars().any(|c| c.is_ascii_digit()) { reports += 1; }
             }
             n += 1;
+        }
+    }
+    for k in [1u32, 2, 255, 256, 257, 65535, 65536, 65537] {
+        for c in [0u8, 15] {
+            out.req("pp settime 0");
+            out.req("pp new 1 3");
+            out.req(&format!("pp feed 1 raw {} 99 3", 0xB0 + c));
+            out.req(&format!("pp feed 1 raw {} 98 37", 0xB0 + c));
+            out.req(&format!("pp feed 1 raw {} 6 9", 0xB0 + c));
+            for _ in 0..k { out.req("pp reset 1"); }
+            out.req("pp tick 10");
+            let a = out.req_ret(&format!("pp poll 1 {}", c));
+            let b = out.req_ret(&format!("pp feed 1 raw {} 96 1", 0xB0 + c));
+            out.oracle(&format!("pp-nothing-reported-after-{}-resets", k), &format!("channel={}", c), a.starts_with('-') && b == NONE12);
+            n += k as u64 + 6;
         }
     }
     out.stat("evaluations", n);
@@ -368,7 +389,7 @@ fn run_sentence(out: &mut Out, rng: &mut Rng, id: usize, ch: u8, timeout: u64, b
     let mut gap = |out: &mut Out, rng: &mut Rng, inner: bool, t0: u64, reports: &mut Obs, nrep: &mut u64| {
         let n = match gap_style { 0 => 0, 1 => 1, _ => rng.below(4) };
         for _ in 0..n {
-            match rng.below(6) {
+            match rng.below(7) {
                 0 | 1 => {
                     // a poll: inside a unit only while it is still early
                     let now = now_nanos();
@@ -389,7 +410,12 @@ fn run_sentence(out: &mut Out, rng: &mut Rng, id: usize, ch: u8, timeout: u64, b
                 }
                 3 => { let l = out.req_ret(&format!("pp feed {} raw {} {} {}", id, st, [7u8, 0, 39, 95, 102, 127][rng.below(6) as usize], rng.below(128))); collect(&l, reports, nrep); }
                 4 => { out.req(&format!("pp feed {} raw {} {} {}", id, 0xB0 + other_ch, [6u8, 38, 96, 98, 99, 101][rng.below(6) as usize], rng.below(128))); }
-                _ => { let l = out.req_ret(&format!("pp feed {} raw {} {} {}", id, 0x90 + ch, rng.below(128), rng.below(128))); collect(&l, reports, nrep); }
+                5 => { let l = out.req_ret(&format!("pp feed {} raw {} {} {}", id, 0x90 + ch, rng.below(128), rng.below(128))); collect(&l, reports, nrep); }
+                _ => {
+                    // a system message whose low status nibble equals the channel, with contributing-looking data bytes
+                    let l = out.req_ret(&format!("pp feed {} raw {} {} {}", id, 0xF0 + ch, [6u8, 38, 96, 97, 98, 99, 100, 101][rng.below(8) as usize], rng.below(128)));
+                    collect(&l, reports, nrep);
+                }
             }
         }
     };
